@@ -697,6 +697,8 @@ def _call(node, env):
                 if not args: return SV('str', sqlsem.py_trim(k, recv.t), recv.n)
                 c = args[0]
                 if not isinstance(c, SV) or c.sort != 'str': raise Unmodelled('strip characters')
+                if env.dialect == 'MySQL':        # TRIM(BOTH remstr FROM s) removes the STRING remstr, not a set of characters
+                    env.region('mysql-trim-removes-a-substring-not-a-character-set', z3.And(z3.Not(recv.n), z3.Not(c.n), z3.Length(c.t) >= 2))
                 return SV('str', sqlsem.py_trim(k, recv.t, c.t), z3.Or(recv.n, c.n))
             raise Unmodelled('string method %s' % m)
         if isinstance(recv, (Coll, Bag)):
